@@ -1000,7 +1000,7 @@ func identToken(ident string) rune {
 	}
 
 	// Now try case-insensitive keywords.
-	switch strings.ToLower(ident) {
+	switch asciiLower(ident) {
 	case "is":
 		return IS_P
 	case "to":
@@ -1064,4 +1064,16 @@ func identToken(ident string) rune {
 	default:
 		return IDENT_P
 	}
+}
+
+// asciiLower lower-cases the ASCII letters of s and nothing else: keywords
+// are ASCII, and Unicode case folding would turn other characters into
+// keyword letters (the Kelvin sign U+212A lower-cases to k).
+func asciiLower(s string) string {
+	return strings.Map(func(r rune) rune {
+		if 'A' <= r && r <= 'Z' {
+			return r + ('a' - 'A')
+		}
+		return r
+	}, s)
 }
